@@ -227,6 +227,8 @@ def run(R):
     with R.clause('D5', 'BLOCK', floor=8, desc='no unbounded blocking primitive reachable from a timeout-bounded entry') as c:
         check_blocking(c, repo, R)
     # ------------------------------------------------------------------ D6 / D7
+    with R.clause('D8', 'POLL', floor=6, desc='pty read: drain polls are non-blocking, every read is guarded by a successful poll; waitnoecho outcomes') as c:
+        check_pty_polls(c, repo)
     with R.clause('D6', 'TAB', floor=3, desc='"nothing arrived in time" is reported as TIMEOUT on every transport') as c:
         check_nodata(c, repo)
     with R.clause('D7', 'PAIR', floor=3, desc='socket timeout saved, set, and restored in a finally; recv inside') as c:
@@ -470,6 +472,56 @@ def bounded_timeout_expr(f, a):
     return False, 'timeout expression %s not understood as bounded' % norm(a)
 
 
+def conjuncts(e):
+    if isinstance(e, ast.BoolOp) and isinstance(e.op, ast.And):
+        out = []
+        for v in e.values:
+            out.extend(conjuncts(v))
+        return out
+    return [e]
+
+
+def check_pty_polls(c, repo):
+    f = repo.func('pty_spawn:spawn.read_nonblocking')
+    g = f.cfg
+    polls = cfg_nodes_with_call(f, lambda k: isinstance(k.func, ast.Name) and k.func.id == 'select')
+    c.need(len(polls) >= 4, 'spawn.read_nonblocking: expected >= 4 select() polls, found %d' % len(polls))
+    timed = [(n, k) for n, k in polls if k.args and is_name(k.args[0], 'timeout')]
+    c.check(len(timed) == 1, f, timed[0][1] if timed else None, 'exactly one poll waits with the (remaining) timeout', witness=str([norm(k) for n, k in polls]), kind='ast', tag='one-timed-poll')
+    for n, k in polls:
+        if (n, k) in timed:
+            continue
+        c.check(k.args and is_const(k.args[0], 0), f, k, 'every other poll is a non-blocking probe select(0) (the read must never wait longer than the timeout it was given)',
+                witness=norm(k), kind='ast', tag='probe-zero:L%d' % 0 if False else 'probe-zero:' + str(polls.index((n, k))))
+    # every actual read happens only after a poll reported the descriptor ready
+    reads = cfg_nodes_with_call(f, lambda k: callee_last(k) == 'read_nonblocking' and isinstance(k.func.value, ast.Call))
+    for n, k in reads:
+        ok = False
+        for t in g.nodes:
+            if t.kind == 'test' and n in guard_region(g, t, 'true'):
+                if any(isinstance(x, ast.Call) and isinstance(x.func, ast.Name) and x.func.id == 'select' for x in conjuncts(t.ast)):
+                    ok = True
+        c.check(ok, f, k, 'the (blocking) os.read is reached only when a poll just reported data: the test guarding it has select(...) as a conjunct',
+                witness=norm(k), kind='path', tag='read-after-ready:' + str(reads.index((n, k))))
+    # the timed wait is skipped only for timeout == 0
+    if timed:
+        tn = [t for t in g.nodes if t.kind == 'test' and any(x is timed[0][1] for x in ast.walk(t.ast))]
+        ok = len(tn) == 1 and sorted(norm(x) for x in conjuncts(tn[0].ast)) == sorted(['timeout != 0', 'select(timeout)'])
+        c.check(ok, f, tn[0].ast if tn else None, 'the timed wait is skipped exactly for timeout == 0 and otherwise decides whether data arrived',
+                witness=norm(tn[0].ast) if tn else '', kind='alg', tag='timed-wait-guard')
+    # waitnoecho outcomes
+    w = repo.func('pty_spawn:spawn.waitnoecho')
+    gw = w.cfg
+    te = [t for t in gw.nodes if t.kind == 'test' and any(callee_last(k) == 'getecho' for k in calls_in(t.ast))]
+    c.need(len(te) == 1, 'waitnoecho: echo test not found')
+    edge = 'true' if norm(te[0].ast).startswith('not ') else 'false'
+    nx = [s2 for s2, l2 in te[0].succ if l2 == edge]
+    c.check(norm(te[0].ast) in ('not self.getecho()', 'self.getecho()') and len(nx) == 1 and nx[0].kind == 'stmt' and isinstance(nx[0].ast, ast.Return)
+            and is_const(nx[0].ast.value, True), w, te[0].ast, 'waitnoecho returns True exactly when the echo flag is found off', witness=norm(te[0].ast), kind='path', tag='noecho-true')
+    loops = [n for n in iter_nodes(w.node) if isinstance(n, ast.While)]
+    c.check(len(loops) == 1 and is_const(loops[0].test, True), w, loops[0] if loops else None, 'it keeps polling until one of the two outcomes', kind='ast', tag='noecho-loop')
+
+
 # ------------------------------------------------------------------ D6 / D7
 
 def check_nodata(c, repo):
@@ -554,6 +606,9 @@ MUTANTS = [
     ('poll-swallow-errors', 'utils', "                    if timeout < 0:\n                        return []\n            else:\n                # something else caused the select.error, so\n                # this actually is an exception.\n                raise", "                    if timeout < 0:\n                        return []\n            else:\n                return []", 'D4'),
     ('select-none', 'pty_spawn', "        if (timeout != 0) and select(timeout):", "        if (timeout != 0) and select(None):", 'D5'),
     ('select-default', 'pty_spawn', "        if (timeout != 0) and select(timeout):", "        if (timeout != 0) and select(self.timeout):", 'D5'),
+    ('first-poll-blocks', 'pty_spawn', "        if select(0):\n            try:\n                incoming = super(spawn, self).read_nonblocking(size)", "        if select(1):\n            try:\n                incoming = super(spawn, self).read_nonblocking(size)", 'D8'),
+    ('timed-wait-or', 'pty_spawn', "        if (timeout != 0) and select(timeout):", "        if (timeout != 0) or select(timeout):", 'D8'),
+    ('waitnoecho-inverted', 'pty_spawn', "            if not self.getecho():\n                return True", "            if self.getecho():\n                return True", 'D8'),
     ('read-waits', 'pty_spawn', "        if not self.isalive():\n            # The process is dead, but there may or may not be data", "        if self.flag_eof:\n            self.ptyproc.wait()\n        if not self.isalive():\n            # The process is dead, but there may or may not be data", 'D5'),
     ('queue-blocking-get', 'popen_spawn', "incoming = self._read_queue.get_nowait()", "incoming = self._read_queue.get()", 'D5'),
     ('socket-no-blockingio', 'socket_pexpect', "        except (socket.timeout, BlockingIOError):", "        except socket.timeout:", 'D6'),
